@@ -1,3 +1,301 @@
-(* C12 (placeholder while the correspondence is being brought up) *)
-From Coq Require Import List ZArith Bool.
-From IB Require Import Ckpt.Bincode Ckpt.Store.
+(* C12: checkpoint store - faithful round trip, integrity, bounded retention, true latest.
+   This file holds ONLY the property theorems (each closed by `exact`) and their non-vacuity
+   examples. Model: Ckpt/Bincode.v (bincode 2.0.1 `standard().with_limit::<16 MiB>()`),
+   Ckpt/Store.v (src/checkpoint.rs). Conventions:
+     H        SHA-256 as an ARBITRARY function bytes -> digest bytes (nothing is assumed of it)
+     avail    what the allocator can serve; requests beyond it are the outcome Abort
+     readdir  the OS directory listing: ANY function returning a permutation of the names present
+     files_of pid d   the names in d that checkpoint_file_timestamp accepts for pipeline pid *)
+From Coq Require Import List ZArith Bool Permutation String.
+From IB Require Import Util.J Ckpt.Bincode Ckpt.Store.
+From IB Require Import Proofs.CkptBincode Proofs.CkptStore Proofs.CkptRetention Proofs.CkptMain.
+Import ListNotations.
+Open Scope Z_scope.
+
+Definition files_of (pid : bytes) (d : dir) : list name := filter (is_ckpt pid) (dir_names d).
+Definition listing_ok (readdir : dir -> list name) : Prop :=
+  forall d, Permutation (readdir d) (dir_names d).
+
+(* ------------------------------------------------------------------ 1. faithful round trip *)
+
+(* decode (encode s ++ junk) for every value of the Rust type, EXACTLY: Ok s iff what the limit
+   accounting charges (8 per integer, 8 + length per string, 1 for the u8) fits the 16 MiB limit *)
+Theorem c12_decode_encode_exact :
+  forall avail s junk,
+    ckpt_limit <= avail -> wf_value s ->
+    decode (Some ckpt_limit) avail (encode s ++ junk)
+    = if claim_total s <=? ckpt_limit then DOk s else DErr ELimit.
+Proof. exact main_decode_exact. Qed.
+
+Theorem c12_roundtrip_decode :
+  forall avail s junk,
+    ckpt_limit <= avail -> wf_state s -> claim_total s <= ckpt_limit ->
+    decode (Some ckpt_limit) avail (encode s ++ junk) = DOk s.
+Proof. exact main_roundtrip_decode. Qed.
+
+(* load_checkpoint (save_checkpoint s) = s, field for field, for every directory, retention
+   setting and listing order - unless retention has already deleted that very file (it is then
+   older than max_checkpoints newer ones, see c12_retention) *)
+Theorem c12_roundtrip :
+  forall readdir, listing_ok readdir ->
+  forall (H : bytes -> bytes) avail, ckpt_limit <= avail ->
+  forall max d s,
+    let n := ckpt_name (pipeline_id s) (timestamp s) in
+    dir_ok d -> wf_state s -> claim_total s <= ckpt_limit -> name_ok n = true ->
+    checksum s = compute_checksum H (meta_str s) ->
+    match max with Some m => 0 <= m | None => True end ->
+    exists d', save readdir max d s = (Ok n, d')
+               /\ (load H avail d' n = Ok s \/ dir_lookup d' n = None)
+               /\ (max = None -> load H avail d' n = Ok s).
+Proof. exact save_load_roundtrip. Qed.
+
+(* ------------------------------------------------------------------ 2. integrity *)
+
+(* "id:index:timestamp:partitions" determines the four fields, even with ':' inside the id *)
+Theorem c12_meta_str_injective :
+  forall s1 s2,
+    nums_nonneg s1 -> nums_nonneg s2 -> meta_str s1 = meta_str s2 -> protected s1 = protected s2.
+Proof. exact meta_str_injective. Qed.
+
+(* whatever load accepts carries the checksum of its own protected fields *)
+Theorem c12_integrity :
+  forall (H : bytes -> bytes) avail b s',
+    load_bytes H avail b = Ok s' -> checksum s' = hex (H (meta_str s')).
+Proof. exact main_integrity. Qed.
+
+(* b = any bytes at all (a saved file altered in any way). If load accepts b as a state that still
+   has the checksum of the saved state s but other protected fields, then H has a collision. *)
+Theorem c12_tamper_detected :
+  forall (H : bytes -> bytes) avail, ckpt_limit <= avail ->
+  forall s b s',
+    nums_nonneg s -> Forall is_byte b ->
+    checksum s = compute_checksum H (meta_str s) ->
+    load_bytes H avail b = Ok s' -> checksum s' = checksum s ->
+    protected s' <> protected s ->
+    meta_str s' <> meta_str s /\ hex (H (meta_str s')) = hex (H (meta_str s)).
+Proof. exact tamper_detected. Qed.
+
+(* hex is injective on digests, so the collision above is a collision of H itself *)
+Theorem c12_hex_injective :
+  forall a b, Forall is_byte a -> Forall is_byte b -> hex a = hex b -> a = b.
+Proof. exact hex_inj. Qed.
+
+(* altering only the checksum field of a saved file is rejected *)
+Theorem c12_checksum_alteration_rejected :
+  forall (H : bytes -> bytes) avail, ckpt_limit <= avail ->
+  forall s c' junk,
+    let s2 := mk_cstate (pipeline_id s) (completed_node_index s) (timestamp s) (partition_count s)
+                        c' (exec_mode s) (metadata s) in
+    wf_value s2 -> c' <> compute_checksum H (meta_str s) ->
+    exists e, load_bytes H avail (encode s2 ++ junk) = Err e.
+Proof. exact checksum_alteration_rejected. Qed.
+
+(* ------------------------------------------------------------------ 3. malformed bytes *)
+
+(* for EVERY file content load returns Ok or Err - never the Abort outcome *)
+Theorem c12_load_total :
+  forall (H : bytes -> bytes) avail, ckpt_limit <= avail ->
+  forall b, (exists s, load_bytes H avail b = Ok s) \/ (exists e, load_bytes H avail b = Err e).
+Proof. exact load_bytes_total. Qed.
+
+(* all allocation requests of one decode together stay within 16 MiB, whatever the bytes *)
+Theorem c12_alloc_bound :
+  forall avail b,
+    ckpt_limit <= avail ->
+    zsum (decode_allocs (Some ckpt_limit) avail b) <= 16777216
+    /\ (Forall is_byte b ->
+        Forall (fun n => 0 <= n <= 16777216) (decode_allocs (Some ckpt_limit) avail b)).
+Proof. exact main_alloc_bound. Qed.
+
+(* the Abort outcome is real: the same decoder WITHOUT the limit aborts on the old witness
+   (first length prefix 2^63) *)
+Theorem c12_unlimited_decoder_aborts :
+  decode None 9223372036854775807 [253; 0; 0; 0; 0; 0; 0; 0; 128] = DAbort.
+Proof. exact decode_unlimited_aborts. Qed.
+
+(* ------------------------------------------------------------------ 4. retention *)
+
+(* one save with max_checkpoints = Some m (m = 0 included), from ANY directory d (so: after any
+   history), for ANY listing order. d1 = d with the new file written. Ties (equal filename
+   timestamps, e.g. `_7.bin` and `_007.bin`): any of the tied files may be the one kept - the
+   order clause is `<=`. *)
+Theorem c12_retention :
+  forall readdir, listing_ok readdir ->
+  forall (m : Z) (d : dir) (s : cstate),
+    let pid := pipeline_id s in
+    let n := ckpt_name pid (timestamp s) in
+    let d1 := dir_write d n (encode s) in
+    dir_ok d -> 0 <= m -> is_u64 (timestamp s) -> name_ok n = true ->
+    exists d',
+      save readdir (Some m) d s = (Ok n, d') /\ dir_ok d'
+      /\ In n (files_of pid d1)
+      (* exactly min(m, count) files of this pipeline remain ... *)
+      /\ Z.of_nat (List.length (files_of pid d')) = Z.min m (Z.of_nat (List.length (files_of pid d1)))
+      (* ... nothing appears or changes content ... *)
+      /\ (forall x b, dir_lookup d' x = Some b -> dir_lookup d1 x = Some b)
+      (* ... and no deleted file of the pipeline is newer than a kept one *)
+      /\ (forall k x, In k (files_of pid d') -> In x (files_of pid d1) -> ~ In x (files_of pid d') ->
+            ts_key pid x <= ts_key pid k)
+      (* every file that is not a checkpoint of this pipeline is untouched *)
+      /\ (forall x, is_ckpt pid x = false -> dir_lookup d' x = dir_lookup d x).
+Proof. exact main_retention. Qed.
+
+(* a file is a checkpoint of at most one pipeline: `checkpoint_a_b_200.bin` is a_b's, not a's *)
+Theorem c12_owner_unique :
+  forall p1 p2 n, is_ckpt p1 n = true -> is_ckpt p2 n = true -> p1 = p2.
+Proof. exact owner_unique. Qed.
+
+(* any history of saves, pipeline ids interleaved at will, from any directory: every pipeline
+   that was saved at least once ends with at most m files *)
+Theorem c12_retention_history :
+  forall readdir, listing_ok readdir ->
+  forall m h d p,
+    dir_ok d -> 0 <= m ->
+    Forall (fun s => is_u64 (timestamp s)
+                     /\ name_ok (ckpt_name (pipeline_id s) (timestamp s)) = true) h ->
+    In p (map pipeline_id h) ->
+    Z.of_nat (List.length (files_of p (run_saves readdir (Some m) d h))) <= m.
+Proof. exact history_bounded. Qed.
+
+(* ------------------------------------------------------------------ 5. latest, clear *)
+
+Theorem c12_latest_is_max :
+  forall readdir, listing_ok readdir ->
+  forall pid d,
+    match latest readdir true pid d with
+    | Some n => In n (files_of pid d)
+                /\ forall x, In x (files_of pid d) -> ts_key pid x <= ts_key pid n
+    | None => files_of pid d = []
+    end.
+Proof. exact latest_spec. Qed.
+
+Theorem c12_clear :
+  forall readdir, listing_ok readdir ->
+  forall pid d,
+    dir_ok d ->
+    let d' := clear readdir pid d in
+    dir_ok d' /\ files_of pid d' = []
+    /\ (forall x, is_ckpt pid x = false -> dir_lookup d' x = dir_lookup d x)
+    /\ (forall x b, dir_lookup d' x = Some b -> dir_lookup d x = Some b).
+Proof. exact clear_spec. Qed.
+
+(* ================================================================== non-vacuity examples *)
+Definition exH (x : bytes) : bytes := [zsum x mod 256; Z.of_nat (List.length x) mod 256; 255].
+Definition ex_pid : bytes := string_bytes "a:b_1".
+Definition ex_state : cstate :=
+  let base := mk_cstate ex_pid 300 1700000000000 70000 [] (string_bytes "par")
+                        (mk_cmeta 18446744073709551615 [206; 187] 255) in
+  mk_cstate ex_pid 300 1700000000000 70000 (compute_checksum exH (meta_str base))
+            (string_bytes "par") (metadata base).
+Definition ex_avail : Z := 9223372036854775807.
+Definition rev_listing (d : dir) : list name := rev (dir_names d).
+Lemma rev_listing_ok : listing_ok rev_listing.
+Proof. intro d. apply Permutation_sym, Permutation_rev. Qed.
+
+Definition nm (n : string) : name := string_bytes n.
+Definition f (n : string) : name * bytes := (string_bytes n, [1]).
+Definition ex_dir : dir :=
+  [f "checkpoint_a_100.bin"; f "checkpoint_a_b_200.bin"; f "checkpoint_a_300.bin";
+   f "checkpoint_a_x.bin"; f "checkpoint_a_7.BIN"; f "checkpoint_a_50.bin"; f "notes.tmp"].
+Definition ex_save (pid : string) (ts : Z) : cstate :=
+  mk_cstate (string_bytes pid) 1 ts 1 [] [] (mk_cmeta 2 [] 50).
+
+(* c12_decode_encode_exact / c12_roundtrip_decode: hypotheses hold and the state is not trivial
+   (multi-byte integers, non-ASCII text, ':' and '_' in the id) *)
+Example ex_roundtrip_hyps :
+  ckpt_limit <= ex_avail /\ wf_value ex_state /\ wf_state ex_state
+  /\ claim_total ex_state <= ckpt_limit
+  /\ decode (Some ckpt_limit) ex_avail (encode ex_state ++ [255; 0]) = DOk ex_state
+  /\ List.length (encode ex_state) = 47%nat.
+Proof.
+  unfold wf_value, wf_state, wf_str, is_u64, is_byte.
+  repeat split; vm_compute; try reflexivity; intro; discriminate.
+Qed.
+
+(* c12_roundtrip: with retention 1 and a reversed listing, in a directory with other files *)
+Example ex_roundtrip_save :
+  dir_ok ex_dir /\ name_ok (ckpt_name (pipeline_id ex_state) (timestamp ex_state)) = true
+  /\ checksum ex_state = compute_checksum exH (meta_str ex_state)
+  /\ (let '(r, d') := save rev_listing (Some 1) ex_dir ex_state in
+      match r with Ok n => load exH ex_avail d' n = Ok ex_state | _ => False end).
+Proof.
+  split; [|repeat split; vm_compute; reflexivity].
+  unfold dir_ok. vm_compute. repeat constructor; cbn; intuition discriminate.
+Qed.
+
+(* c12_meta_str_injective: the colliding-looking ids "a:1" / "a" give different strings *)
+Example ex_meta_str :
+  meta_str (mk_cstate (string_bytes "a:1") 2 3 4 [] [] (mk_cmeta 0 [] 0)) = string_bytes "a:1:2:3:4"
+  /\ meta_str (mk_cstate (string_bytes "a") 1 2 34 [] [] (mk_cmeta 0 [] 0)) = string_bytes "a:1:2:34"
+  /\ nums_nonneg ex_state.
+Proof. unfold nums_nonneg. repeat split; vm_compute; try reflexivity; intro; discriminate. Qed.
+
+(* c12_integrity / c12_tamper_detected / c12_checksum_alteration_rejected: a saved file loads;
+   the same file with the timestamp byte changed, or with one checksum character changed, is
+   rejected with the checksum error *)
+Example ex_integrity :
+  let s := mk_cstate [112] 1 5 2 (compute_checksum exH (string_bytes "p:1:5:2")) [115] (mk_cmeta 3 [109] 50) in
+  let t := mk_cstate [112] 1 6 2 (checksum s) [115] (mk_cmeta 3 [109] 50) in
+  let c := mk_cstate [112] 1 5 2 (48 :: tl (checksum s)) [115] (mk_cmeta 3 [109] 50) in
+  load_bytes exH ex_avail (encode s) = Ok s
+  /\ load_bytes exH ex_avail (encode t) = Err LChecksum
+  /\ load_bytes exH ex_avail (encode c) = Err LChecksum
+  /\ Forall is_byte (encode t) /\ protected t <> protected s /\ wf_value c.
+Proof.
+  cbv zeta. split; [vm_compute; reflexivity|]. split; [vm_compute; reflexivity|].
+  split; [vm_compute; reflexivity|]. split; [|split].
+  - vm_compute. repeat constructor; intro; discriminate.
+  - vm_compute. intro E. discriminate.
+  - unfold wf_value, wf_str, is_u64, is_byte. repeat split; vm_compute; try reflexivity; intro; discriminate.
+Qed.
+
+(* c12_load_total / c12_alloc_bound: the old witnesses now give Err, and the only request made is
+   within the limit; a length prefix just inside the limit is allocated (and then fails: EEnd) *)
+Example ex_malformed :
+  load_bytes exH ex_avail [253; 0; 0; 0; 0; 0; 0; 0; 128; 1; 2] = Err (LDecode ELimit)
+  /\ load_bytes exH ex_avail [253; 0; 0; 0; 0; 1; 0; 0; 0] = Err (LDecode ELimit)
+  /\ load_bytes exH ex_avail [252; 248; 255; 255; 0; 1] = Err (LDecode EEnd)
+  /\ decode_allocs (Some ckpt_limit) ex_avail [252; 248; 255; 255; 0; 1] = [16777208]
+  /\ load_bytes exH ex_avail [252; 249; 255; 255; 0; 1] = Err (LDecode ELimit)
+  /\ decode_allocs (Some ckpt_limit) ex_avail [252; 249; 255; 255; 0; 1] = []
+  /\ load_bytes exH ex_avail [1; 255] = Err (LDecode EUtf8)
+  /\ load_bytes exH ex_avail [0; 254] = Err (LDecode EDiscriminant)
+  /\ load_bytes exH ex_avail [] = Err (LDecode EEnd).
+Proof. repeat split; vm_compute; reflexivity. Qed.
+
+(* c12_retention / c12_owner_unique: saving pipeline "a" with max 1 and 2 keeps the newest of a's
+   files and leaves a_b's file, the foreign files and the junk alone (old defect witness) *)
+Example ex_retention :
+  dir_names (snd (save rev_listing (Some 1) ex_dir (ex_save "a" 150)))
+  = [nm "checkpoint_a_b_200.bin"; nm "checkpoint_a_300.bin"; nm "checkpoint_a_x.bin"; nm "checkpoint_a_7.BIN"; nm "notes.tmp"]
+  /\ dir_names (snd (save dir_names (Some 2) ex_dir (ex_save "a" 150)))
+  = [nm "checkpoint_a_150.bin"; nm "checkpoint_a_b_200.bin"; nm "checkpoint_a_300.bin"; nm "checkpoint_a_x.bin"; nm "checkpoint_a_7.BIN"; nm "notes.tmp"]
+  /\ dir_names (snd (save dir_names (Some 0) ex_dir (ex_save "a" 150)))
+  = [nm "checkpoint_a_b_200.bin"; nm "checkpoint_a_x.bin"; nm "checkpoint_a_7.BIN"; nm "notes.tmp"]
+  /\ is_ckpt (string_bytes "a") (string_bytes "checkpoint_a_b_200.bin") = false
+  /\ is_ckpt (string_bytes "a_b") (string_bytes "checkpoint_a_b_200.bin") = true
+  /\ map (is_ckpt (string_bytes "p"))
+         ([nm "checkpoint_p_x.bin"; nm "checkpoint_p_5.BIN"; nm "checkpoint_p_5.tmp"; nm "checkpoint_p_.bin"; nm "checkpoint_p_+.bin"; nm "checkpoint_p_-5.bin"; nm "checkpoint_p_18446744073709551616.bin"; nm "checkpoint_p_5.bin"; nm "checkpoint_p_+5.bin"; nm "checkpoint_p_005.bin"; nm "checkpoint_p_18446744073709551615.bin"])
+     = [false; false; false; false; false; false; false; true; true; true; true].
+Proof. repeat split; vm_compute; reflexivity. Qed.
+
+(* c12_retention_history: an interleaved history over two pipelines *)
+Example ex_history :
+  let h := [ex_save "a" 5; ex_save "a_b" 9; ex_save "a" 3; ex_save "a_b" 1; ex_save "a" 400] in
+  Forall (fun s => is_u64 (timestamp s)
+                   /\ name_ok (ckpt_name (pipeline_id s) (timestamp s)) = true) h
+  /\ dir_names (run_saves rev_listing (Some 2) ex_dir h)
+     = [nm "checkpoint_a_400.bin"; nm "checkpoint_a_b_9.bin"; nm "checkpoint_a_b_200.bin"; nm "checkpoint_a_300.bin"; nm "checkpoint_a_x.bin"; nm "checkpoint_a_7.BIN"; nm "notes.tmp"].
+Proof.
+  cbv zeta. split; [|vm_compute; reflexivity].
+  unfold is_u64. repeat constructor; vm_compute; try reflexivity; intro; discriminate.
+Qed.
+
+(* c12_latest_is_max / c12_clear *)
+Example ex_latest_clear :
+  latest rev_listing true (string_bytes "a") ex_dir = Some (string_bytes "checkpoint_a_300.bin")
+  /\ latest dir_names true (string_bytes "a_b") ex_dir = Some (string_bytes "checkpoint_a_b_200.bin")
+  /\ latest dir_names true (string_bytes "zz") ex_dir = None
+  /\ dir_names (clear rev_listing (string_bytes "a") ex_dir)
+     = [nm "checkpoint_a_b_200.bin"; nm "checkpoint_a_x.bin"; nm "checkpoint_a_7.BIN"; nm "notes.tmp"].
+Proof. repeat split; vm_compute; reflexivity. Qed.
